@@ -317,6 +317,65 @@ def check_osinit(lines, outs):
     return None, None, n
 
 
+SLOT_NAMES = ["HW", "KV_PHYS", "KPHYS_DIRECT", "MACHPHYS_KPHYS", "KPHYS_MACHPHYS"]
+OSMOD_CFG = {"s390x": [(42, 1), (31, 1), (53, 1), (64, 1), (0, 0)]}     # (virt_bits, rootpgt given); default: [(0, 0), (0, 1)]
+
+
+def gen_osmod(R):
+    """The maps a translation system gets from addrxlat_sys_os_init (a client of addrxlat_map_copy: s390x, arm,
+    aarch64, riscv64 and x86_64 derive KV_PHYS from the HW map) are independent objects: a range assignment by the
+    caller on the map of one slot changes that map on exactly that range and no other map of the system."""
+    rng, lines = R.rng, []
+    for arch in OS_ARCHS:
+        for vb, rp in OSMOD_CFG.get(arch, [(0, 0), (0, 1)]):
+            for slot in range(5):
+                for _ in range(1 if R.tier == "quick" else 6):
+                    k = rng.random()
+                    if k < 0.4:
+                        lo = rng.choice([0, 0x1000, 1 << 31, 1 << 41, 1 << 47])
+                        hi = lo + rng.choice([0, 0xfff, (1 << 30) - 1])
+                    else:
+                        lo, hi = sorted((rng.getrandbits(rng.choice([16, 32, 42, 64])), rng.getrandbits(rng.choice([16, 32, 42, 64]))))
+                    lines.append("osmod %s %d %d %d %d %d %d" % (arch, vb, rp, slot, lo, hi - lo, rng.choice([-1, DIRECT, RDIRECT, 0, 1])))
+    return lines
+
+
+def check_osmod(lines, outs):
+    n = 0
+    for i, (ln, o) in enumerate(zip(lines, outs)):
+        f = ln.split()
+        arch, slot, lo, eo, m = f[1], int(f[4]), int(f[5]), int(f[6]), int(f[7])
+        halves = o.split(" # ")
+        if len(halves) != 2 or not o.startswith("osmod "):
+            return i, "bad osmod output '%s'" % o[:100], n
+        before = [x.strip() for x in halves[0].split(" |")[1:]]
+        st2 = int(halves[1].split(" |")[0])
+        after = [x.strip() for x in halves[1].split(" |")[1:]]
+        if before[slot] == "null":
+            continue
+        n += 1
+        what = ("addrxlat_sys_os_init(%s) then addrxlat_map_set(map of slot %s, %#x..%#x -> %d)"
+                % (" ".join(f[1:4]), SLOT_NAMES[slot], lo, lo + eo, m))
+        for j in range(len(before)):
+            if j != slot and after[j] != before[j]:
+                return i, ("%s changed the map of slot %s, which was not assigned to: '%s' -> '%s' (the maps of a translation "
+                           "system are independent copies)" % (what, SLOT_NAMES[j], before[j], after[j])), n
+        if st2 != 0:
+            if after[slot] != before[slot]:
+                return i, "%s failed with status %d and changed the map: '%s' -> '%s'" % (what, st2, before[slot], after[slot]), n
+            continue
+        bv, e1 = view_of(parse_map(before[slot].split()))
+        av, e2 = view_of(parse_map(after[slot].split()))
+        if e2 and not e1:
+            return i, "%s: %s ('%s')" % (what, e2, after[slot]), n
+        if e1 or e2:
+            continue
+        ref = Ref(bv); ref.set(lo, lo + eo, m)
+        if av != ref.segs:
+            return i, "%s: the map is %s, expected %s (before: %s)" % (what, fmt(av), fmt(ref.segs), fmt(bv)), n
+    return None, None, n
+
+
 def fmt(segs):
     return "[" + ", ".join("%#x:%d" % s for s in segs) + "]"
 
@@ -358,6 +417,15 @@ def run(R):
     oidx, omsg, on = check_osinit(olines, oimpl)
     if oidx is None and (orc != 0 or len(oimpl) != len(olines)):
         oidx, omsg = len(oimpl), "harness stopped in osinit (rc=%s): %s" % (orc, oerr.strip().split("\n")[0] if oerr.strip() else "")
+    mlines = gen_osmod(R)
+    mrc, mout, merr = R.run_harness(exe, stdin_text="\n".join(mlines) + "\n")
+    mimpl = kdf.obs(mout)
+    midx, mmsg, mn = check_osmod(mlines, mimpl)
+    if midx is None and (mrc != 0 or len(mimpl) != len(mlines)):
+        midx, mmsg = len(mimpl), "harness stopped in osmod (rc=%s): %s" % (mrc, merr.strip().split("\n")[0] if merr.strip() else "")
+    if midx is not None:
+        R.violation(mmsg, dict(stream="map (implementation only)", input=mlines[min(midx, len(mlines) - 1)] + "\n",
+                               impl_output=mimpl[midx] if midx < len(mimpl) else None, stderr=merr[-1500:]))
     if lidx is not None:
         ci = lowner[min(lidx, len(lowner) - 1)]
         first = max(j for j in range(min(lidx, len(llines) - 1) + 1) if llines[j] == "lnew")
@@ -404,8 +472,8 @@ def run(R):
                trusted_base=["Lean 4 kernel", "axioms: " + ", ".join(sorted({a for v in proof["axioms"].values() for a in v}) or ["none"]),
                              "realloc modelled as succeed/fail preserving content", "harness/s_map.c + gcc + ASan/UBSan"],
                broken_theorems=proof["broken"], theorems=THEOREMS + LAYOUT_THEOREMS,
-               evaluations=len(lines) + len(llines) + on, distinct_nontrivial=len(nontriv) + len(lcases),
-               layout_cases=len(lcases), layout_lines=len(llines), osinit_fault_runs=on, layout_correspondence_first_diff=lmism,
+               evaluations=len(lines) + len(llines) + on + mn, distinct_nontrivial=len(nontriv) + len(lcases),
+               layout_cases=len(lcases), layout_lines=len(llines), osinit_fault_runs=on, osinit_independence_runs=mn, layout_correspondence_first_diff=lmism,
                rule="op sequences over 4 maps: exhaustive pairs (sampled/exhaustive-shuffled triples) of sets with endpoints in the 7-point "
                     "breakpoint set x 3 methods, random boundary-biased histories of <=40 ops with copies; every set is run first with realloc "
                     "failing, then succeeding, followed by searches at all boundaries +-1; layout tables (sys_set_layout: 1-6 regions, "
@@ -417,4 +485,7 @@ def run(R):
     return "proof", cov, ["no-wrap guard addr+endoff < 2^64 (wrapping ranges are outside the property)",
                           "realloc/malloc succeed or fail as scheduled and preserve content",
                           "addrxlat_sys_os_init under allocation failure is evaluated on the implementation only (its layout tables are "
-                          "not modelled; sys_set_layout itself is: setLayout)"]
+                          "not modelled; sys_set_layout itself is: setLayout)",
+                          "independence of the maps that addrxlat_sys_os_init leaves in a translation system (osmod: one caller "
+                          "assignment on one slot, every other slot unchanged, the assigned slot = Ref.set) is evaluated on the "
+                          "implementation only; the assignment itself is the modelled Map.set (set_den)"]
